@@ -497,7 +497,11 @@ def gen_api(seed, tier):
                 evs.append(["end", r])
 
         loop(0)
-        if rng.random() < 0.2:       # a match declared after some rank has been registered (takes effect at once)
+        if rng.random() < 0.2 and not any(e[0] == "match" for e in evs):
+            # a match declared after some rank has been registered (takes effect at once).  Only as the sole
+            # match of the session: a rank matched, directly or through others, with SEVERAL registered ranks
+            # is given the one Metrics.matchRanks meets first in a Python set (hash order) — not a function of
+            # the calls, so it is not generated (lean/obligations/C16.json, not_modelled)
             evs.insert(rng.randrange(len(evs) + 1), ["match", "Q", rng.choice(ranks)])
         u = rng.random()
         if u < 0.08 and keys:        # late (re)declaration
